@@ -195,7 +195,7 @@ def op_by_name(name, args):
 
 def contents_of(res):
     """The layout objects contained in an operation's result."""
-    if isinstance(res, ext.Content):
+    if isinstance(res, (ext.Content, ext.Record)):
         yield res
     elif isinstance(res, (tuple, list)):
         for x in res:
